@@ -14,10 +14,16 @@ for L in range(0, 7):
     QUERIES.append(dict(name='validate_name_unit_len%d' % L, harness='c19_l%d' % L, entry='h_validate', unwind=max(L + 4, 6), unwindset=US, rec_unwind=3, timeout=900,
                         tier='quick' if L in (0, 1, 3) else 'thorough',
                         shape='every byte string of length %d (all byte values incl. NUL, no terminator, exactly sized buffer) as instrument name and as unit' % L))
+HARNESSES['c19_views'] = dict(src='c19_views.cc', defines=['OTEL_INTERNAL_LOG_LEVEL=0'], overrides=RX + [SP_RELEASE],
+                              models=['libc.c', 'cxxrt.c', 'stdstring.c', 'single_threaded.c', 'hash_bytes.c', 'regex_model.c', 'regex_std.c', SP_LEAK_MODEL], gen_models=gen_regex_tables, model_defines=['VERIF_STR_HEAP_MAX=31'])
+for e, sh in (('h_match_meter', 'MeterSelector(name, version, schema) vs InstrumentationScope(name, version, schema): each of the 6 strings symbolically "", "a" or "b" (729 combinations in one query)'),
+              ('h_match_instrument', 'InstrumentSelector(type, "*", unit) vs InstrumentDescriptor: 3 instrument types, unit/name symbolically "", "a" or "b"')):
+    QUERIES.append(dict(name=e[2:], harness='c19_views', entry=e, unwind=6, unwindset={'strlen': 4, 'memcmp': 4, 'bcmp': 4, 'verif_memcpy': 20, 'verif_memmove': 20, 'verif_memset': 140, 'vs_copy': 20, 'vs_move': 20}, rec_unwind=3, timeout=900,
+                        shape=sh))
 def extra_engine(args, work):
     return regex_engine(['instrument_name', 'instrument_unit'], args, work)
-BOUNDS = ['name/unit views of every length 0..6 through the real call sites (quick: 0, 1, 3)', 'pattern literals vs documented grammar: every byte string <= 258 (name) / <= 70 (unit) bytes']
+BOUNDS = ['view selectors: ViewRegistry::MatchMeter / MatchInstrument with strings over {"", "a", "b"}, 3 instrument types', 'name/unit views of every length 0..6 through the real call sites (quick: 0, 1, 3)', 'pattern literals vs documented grammar: every byte string <= 258 (name) / <= 70 (unit) bytes']
 OUTSIDE = ['views longer than 6 bytes through the call site (the 255/63 length limits are decided on the literals by the regex queries)',
-           'views, selectors, predicates, scope configurator, provider look-up, Meter registration: ViewRegistry/Meter use std::unordered_map, std::function and std::regex based predicates - not encoded (heavy-STL gate)']
+           'pattern (regex) instrument-name selectors other than the wildcard; FindViews over several registered views, the shaping of the stream by the matched view; scope configurator, provider look-up, Meter registration: std::unordered_map / std::function / std::regex based - not encoded (heavy-STL gate)']
 TRUSTED = ['std::regex_match implements ECMAScript full match for the literal subset', 'documented grammar: name = ALPHA 0*254(ALPHA/DIGIT/_ . - /), unit = 0*63 (%x01-7F), from the comments next to the literals']
 ASSUMPTIONS = ['std::regex compile/match replaced by tables generated from the real literals (models/regex_std.c)']
